@@ -1,11 +1,19 @@
-"""Rewrites `iter.for_each(c) / try_for_each(c) / all(c) / any(c) / fold(init, c) / try_fold(init, c)` on the loaded MIR facts into the
-explicit `loop { match iter.next() { Some(x) => <body of c>, None => break } }` that a `for` loop compiles to, with the closure body
-spliced into the caller and its captured variables replaced by the caller's own places.
+"""Rewrites iterator pipelines that end in an eager consumer taking a workspace closure
 
-Why: the eager iterator consumers are library code whose loop lives in core; treating them as opaque leaves loses (a) the early exit of
-try_for_each / all / any, (b) state that the closure keeps in captured `&mut` variables across iterations (running sums, "previous
-element").  After the rewrite the ordinary machinery (reaching definitions, def-use terms, abstract store) sees the same program shape
-as for the `for` loop, so a maintainer's loop <-> iterator-chain refactoring does not change any verdict.
+    base.[map(f) | filter(p) | filter_map(g)]* . (for_each(c) | try_for_each(c) | all(c) | any(c) | fold(init, c) | try_fold(init, c))
+
+on the loaded MIR facts into the explicit
+
+    loop { match base.next() { Some(x) => { x = f(x); if !p(&x) { continue }; ...; <body of c> }, None => break } }
+
+that a `for` loop with `continue`s compiles to: every closure body is spliced into the caller and its captured variables are replaced
+by the caller's own places.
+
+Why: the loop of these library functions lives in core; treating them as opaque leaves loses (a) the early exit of try_for_each / all /
+any / try_fold, (b) state that a closure keeps in captured `&mut` variables across iterations (running sums, "previous element"), (c)
+which elements reach the consumer behind a filter.  After the rewrite the ordinary machinery (reaching definitions, def-use terms,
+abstract store) sees the same program shape as for the `for` loop, so a maintainer's loop <-> iterator-chain refactoring does not
+change any verdict.
 
 The rewrite is purely structural (no evaluation); when a precondition is not met the call is left alone (the generic, coarser
 "closure may be called by this leaf" model applies).  Result<_, _> is the only Try type handled for try_for_each / try_fold.
@@ -14,6 +22,7 @@ import copy
 import re
 
 CONSUMER = re.compile(r'^\w+::<(.+) as core::iter::Iterator>::(for_each|try_for_each|all|any|fold|try_fold)::<')
+ADAPTOR = re.compile(r'^\w+::<(.+) as core::iter::Iterator>::(map|filter|filter_map)::<')
 
 
 def op_local(o):
@@ -22,22 +31,28 @@ def op_local(o):
     return None
 
 
-def _single_assign(body, local):
-    """the unique plain assignment `local = rv` of the body (None if not exactly one definition site)"""
+def _defs_of(body, local):
+    """definition sites of the local itself (not of its pointee): ('assign', stmt) / ('call', block index)"""
     found = []
-    for b in body['blocks']:
+    for bi, b in enumerate(body['blocks']):
         if b['cleanup']:
             continue
         for s in b['st']:
             if s['s'] == 'assign' and s['pl']['l'] == local:
                 if s['pl'].get('p') and s['pl']['p'][0] == '*':
                     continue          # writes the pointee, not the local itself
-                found.append(s if not s['pl'].get('p') else None)
+                found.append(('assign', s) if not s['pl'].get('p') else ('partial', s))
         t = b['term']
         if t['t'] == 'call' and t['dest']['l'] == local:
-            found.append(None)
-    if len(found) == 1 and found[0] is not None:
-        return found[0]['rv']
+            found.append(('call', bi) if not t['dest'].get('p') else ('partial', bi))
+    return found
+
+
+def _single_assign(body, local):
+    """the unique plain assignment `local = rv` of the body (None if not exactly one definition site)"""
+    d = _defs_of(body, local)
+    if len(d) == 1 and d[0][0] == 'assign':
+        return d[0][1]['rv']
     return None
 
 
@@ -56,298 +71,410 @@ def _next_callee(insts, iter_ty):
     return dict(callee='%s::%s' % (cr, want), cdef=want, crate=cr, self_adt='')
 
 
-def _rewrite_call(insts, body, bi, done):
-    blocks = body['blocks']
-    t = blocks[bi]['term']
-    m = CONSUMER.match(t['callee'])
-    kind = m.group(2)
-    iter_ty = m.group(1)
-    ck = [k for k in t.get('closures', []) if k in insts]
-    if len(ck) != 1 or t['to'] < 0:
-        raise Bail('closure body not available')
-    cbody = insts[ck[0]]
-    inline_body(insts, cbody, done)
-    nargs = {'for_each': 2, 'try_for_each': 2, 'all': 2, 'any': 2, 'fold': 3, 'try_fold': 3}[kind]
-    if len(t['args']) != nargs:
-        raise Bail('arity')
-    cl_local = op_local(t['args'][-1])
-    if cl_local is None:
-        raise Bail('closure operand is not a local')
-    crv = _single_assign(body, cl_local)
-    if crv is None or crv['r'] != 'agg' or crv.get('kind') != 'closure':
-        raise Bail('closure value is not built in this body')
-    caps = crv['ops']
-    at = t.get('at')
-    # ---- fresh locals / blocks
-    L0 = len(body['locals'])
-    nl = len(cbody['locals'])
-    body['locals'].extend(cbody['locals'])
+def _uses(body, local, skip_blocks=()):
+    """number of operand / place uses of `local` other than StorageDead, drops and the listed call blocks"""
+    n = 0
 
-    def newlocal(ty):
-        body['locals'].append(ty)
-        return len(body['locals']) - 1
-    B0 = len(blocks)
-    nb = len(cbody['blocks'])
-    P0 = len(body['promoted'])
-    body['promoted'].extend(copy.deepcopy(cbody['promoted']))
-    # ---- captured variables
-    env_is_ref = cbody['locals'][1].startswith('&')
-    pre = []        # statements executed once before the loop
-    cap_place = {}  # capture index -> ('ref', place, mut) | ('val', local)
-    for i, o in enumerate(caps):
-        l = op_local(o)
-        rv = _single_assign(body, l) if l is not None else None
-        if rv is not None and rv['r'] == 'ref':
-            cap_place[i] = ('ref', rv['pl'], rv.get('mut', False))
-        else:
-            # captured by value: the closure owns a copy that lives across the iterations
-            ty = cbody_capture_ty(cbody, i, body, o)
-            nlc = newlocal(ty)
-            pre.append({'s': 'assign', 'pl': {'l': nlc}, 'rv': {'r': 'use', 'o': o}, 'at': at})
-            cap_place[i] = ('val', nlc)
+    def pl_uses(pl):
+        return 1 if pl['l'] == local else 0
 
-    def is_env_field(pl):
-        """(capture index, remaining projection) if the place goes through the closure environment"""
-        if pl['l'] != 1:
-            return None
-        p = pl.get('p', [])
-        if env_is_ref:
-            if not p or p[0] != '*':
-                return None
-            p = p[1:]
-        if not p or not isinstance(p[0], dict) or 'f' not in p[0]:
-            return None
-        return p[0]['f'], p[1:]
-
-    # temporaries of the closure body that are plain copies of a by-reference capture: `_t = (*_1).i`
-    alias = {}
-    for b in cbody['blocks']:
+    def op_uses(o):
+        return pl_uses(o['pl']) if o['k'] in ('copy', 'move') else 0
+    for bi, b in enumerate(body['blocks']):
+        if b['cleanup']:
+            continue
         for s in b['st']:
-            if s['s'] == 'assign' and not s['pl'].get('p') and s['rv']['r'] == 'use' and s['rv']['o']['k'] in ('copy', 'move'):
-                ef = is_env_field(s['rv']['o']['pl'])
-                if ef and not ef[1] and cap_place.get(ef[0], ('x',))[0] == 'ref':
-                    if _single_assign(cbody, s['pl']['l']) is not None:
-                        alias[s['pl']['l']] = ef[0]
+            if s['s'] != 'assign':
+                continue
+            rv = s['rv']
+            for k in ('o', 'a', 'b'):
+                if isinstance(rv.get(k), dict) and 'k' in rv[k]:
+                    n += op_uses(rv[k])
+            if 'pl' in rv:
+                n += pl_uses(rv['pl'])
+            for o in rv.get('ops', []):
+                n += op_uses(o)
+            if s['pl'].get('p'):
+                n += pl_uses(s['pl'])
+        t = b['term']
+        if bi in skip_blocks:
+            continue
+        if t['t'] == 'call':
+            for a in t['args']:
+                n += op_uses(a)
+        elif t['t'] == 'switch':
+            n += op_uses(t['d'])
+        elif t['t'] == 'assert':
+            n += op_uses(t['c'])
+    return n
 
-    def map_place(pl):
-        p = list(pl.get('p', []))
-        ef = is_env_field(pl)
-        if ef is not None:
-            i, rest = ef
-            cp = cap_place.get(i)
-            if cp is None:
-                raise Bail('capture index')
-            if cp[0] == 'val':
-                return {'l': cp[1], 'p': rest} if rest else {'l': cp[1]}
-            if rest and rest[0] == '*':
-                base = cp[1]
-                q = list(base.get('p', [])) + rest[1:]
-                return {'l': base['l'], 'p': q} if q else {'l': base['l']}
-            raise Bail('by-reference capture used as a value')
-        if pl['l'] == 1:
-            raise Bail('closure environment used as a whole')
-        if pl['l'] in alias and p and p[0] == '*':
-            base = cap_place[alias[pl['l']]][1]
-            q = list(base.get('p', [])) + p[1:]
+
+class Rewriter:
+    def __init__(self, insts, body, done):
+        self.insts = insts
+        self.body = body
+        self.done = done
+        self.pre = []          # statements executed once, before the loop
+        self.new = []          # newly appended blocks (for the final resolution of symbolic targets)
+        self.names = {}        # symbolic block name -> index
+
+    def newlocal(self, ty):
+        self.body['locals'].append(ty)
+        return len(self.body['locals']) - 1
+
+    def add_block(self, name, st, term):
+        b = {'cleanup': False, 'st': st, 'term': term}
+        self.body['blocks'].append(b)
+        self.new.append(b)
+        if name is not None:
+            self.names[name] = len(self.body['blocks']) - 1
+        return len(self.body['blocks']) - 1
+
+    def resolve(self):
+        def r(x):
+            return self.names[x] if isinstance(x, str) else x
+        for b in self.new:
+            t = b['term']
+            if 'to' in t:
+                t['to'] = r(t['to'])
+            if t['t'] == 'switch':
+                t['arms'] = [[v, r(x)] for v, x in t['arms']]
+                t['otherwise'] = r(t['otherwise'])
+
+    # ------------------------------------------------------------------------------------------------------------------
+    def splice(self, ckey, closure_local, ret_to, at):
+        """append the body of closure instance ckey (value held by closure_local, built in this body) with its captures replaced by
+        the caller's places; every `return` becomes `goto ret_to`.  Returns (entry block index, local offset L0)."""
+        insts, body = self.insts, self.body
+        cbody = insts[ckey]
+        inline_body(insts, cbody, self.done)
+        crv = _single_assign(body, closure_local)
+        if crv is None or crv['r'] != 'agg' or crv.get('kind') != 'closure':
+            raise Bail('closure value is not built in this body')
+        caps = crv['ops']
+        L0 = len(body['locals'])
+        body['locals'].extend(cbody['locals'])
+        B0 = len(body['blocks'])
+        P0 = len(body['promoted'])
+        body['promoted'].extend(copy.deepcopy(cbody['promoted']))
+        env_is_ref = cbody['locals'][1].startswith('&')
+        cap_place = {}  # capture index -> ('ref', place, mut) | ('val', local)
+        for i, o in enumerate(caps):
+            l = op_local(o)
+            rv = _single_assign(body, l) if l is not None else None
+            if rv is not None and rv['r'] == 'ref':
+                cap_place[i] = ('ref', rv['pl'], rv.get('mut', False))
+            else:
+                # captured by value: the closure owns a copy that lives across the iterations
+                ty = body['locals'][l] if l is not None else o.get('ty', '?')
+                nlc = self.newlocal(ty)
+                self.pre.append({'s': 'assign', 'pl': {'l': nlc}, 'rv': {'r': 'use', 'o': o}, 'at': at})
+                cap_place[i] = ('val', nlc)
+
+        def is_env_field(pl):
+            """(capture index, remaining projection) if the place goes through the closure environment"""
+            if pl['l'] != 1:
+                return None
+            p = pl.get('p', [])
+            if env_is_ref:
+                if not p or p[0] != '*':
+                    return None
+                p = p[1:]
+            if not p or not isinstance(p[0], dict) or 'f' not in p[0]:
+                return None
+            return p[0]['f'], p[1:]
+
+        # temporaries of the closure body that are plain copies of a by-reference capture: `_t = (*_1).i`
+        alias = {}
+        for b in cbody['blocks']:
+            for s in b['st']:
+                if s['s'] == 'assign' and not s['pl'].get('p') and s['rv']['r'] == 'use' and s['rv']['o']['k'] in ('copy', 'move'):
+                    ef = is_env_field(s['rv']['o']['pl'])
+                    if ef and not ef[1] and cap_place.get(ef[0], ('x',))[0] == 'ref':
+                        if _single_assign(cbody, s['pl']['l']) is not None:
+                            alias[s['pl']['l']] = ef[0]
+
+        def onto(base, rest):
+            q = list(base.get('p', [])) + list(rest)
             return {'l': base['l'], 'p': q} if q else {'l': base['l']}
-        out = {'l': L0 + pl['l']}
-        if p:
-            out['p'] = p
-        return out
 
-    def map_op(o):
-        if o['k'] in ('copy', 'move'):
-            return {'k': o['k'], 'pl': map_place(o['pl'])}
-        o = dict(o)
-        if 'promoted' in o:
-            o['promoted'] = P0 + o['promoted']
-        return o
+        def map_place(pl):
+            p = list(pl.get('p', []))
+            ef = is_env_field(pl)
+            if ef is not None:
+                i, rest = ef
+                cp = cap_place.get(i)
+                if cp is None:
+                    raise Bail('capture index')
+                if cp[0] == 'val':
+                    return {'l': cp[1], 'p': rest} if rest else {'l': cp[1]}
+                if rest and rest[0] == '*':
+                    return onto(cp[1], rest[1:])
+                raise Bail('by-reference capture used as a value')
+            if pl['l'] == 1:
+                raise Bail('closure environment used as a whole')
+            if pl['l'] in alias and p and p[0] == '*':
+                return onto(cap_place[alias[pl['l']]][1], p[1:])
+            out = {'l': L0 + pl['l']}
+            if p:
+                out['p'] = p
+            return out
 
-    def map_rv(rv, dest_local):
-        rv = dict(rv)
-        k = rv['r']
-        if k == 'use':
-            o = rv['o']
+        def map_op(o):
             if o['k'] in ('copy', 'move'):
-                ef = is_env_field(o['pl'])
-                if ef and not ef[1] and cap_place.get(ef[0], ('x',))[0] == 'ref':
-                    # copy of a captured reference: a fresh reference to the caller's variable
-                    cp = cap_place[ef[0]]
-                    return {'r': 'ref', 'mut': cp[2], 'pl': cp[1]}
-            rv['o'] = map_op(o)
-        elif k in ('ref', 'rawptr', 'discr'):
-            rv['pl'] = map_place(rv['pl'])
-        elif k == 'bin':
-            rv['a'] = map_op(rv['a'])
-            rv['b'] = map_op(rv['b'])
-        elif k in ('un', 'cast', 'repeat'):
-            rv['a'] = map_op(rv['a'])
-        elif k == 'agg':
-            rv['ops'] = [map_op(o) for o in rv['ops']]
-        elif 'pl' in rv or 'o' in rv or 'a' in rv:
-            raise Bail('rvalue %s' % k)
-        return rv
+                return {'k': o['k'], 'pl': map_place(o['pl'])}
+            o = dict(o)
+            if 'promoted' in o:
+                o['promoted'] = P0 + o['promoted']
+            return o
 
-    # ---- loop skeleton
-    elem_ty = cbody['locals'][nargs]           # type of the closure's element parameter
-    opt_ty = 'core::option::Option<%s>' % elem_ty
-    iter_arg = t['args'][0]
-    it_ty = t['argtys'][0] if t.get('argtys') else ''
-    if it_ty.startswith('&mut '):
-        iter_ref_op = None      # arg 0 already is `&mut iterator`: re-borrow it each round
-        base_ref = op_local(iter_arg)
-        if base_ref is None:
-            raise Bail('iterator operand')
-    else:
-        # iterator passed by value (for_each / fold): keep it in a fresh local and borrow that
-        itl = newlocal(it_ty)
-        pre.append({'s': 'assign', 'pl': {'l': itl}, 'rv': {'r': 'use', 'o': iter_arg}, 'at': at})
-        base_ref = None
-    l_ref = newlocal('&mut ' + (it_ty[5:] if it_ty.startswith('&mut ') else it_ty))
-    l_opt = newlocal(opt_ty)
-    l_d = newlocal('isize')
-    acc = None
-    if kind in ('fold', 'try_fold'):
-        acc = newlocal(cbody['locals'][2])
-        pre.append({'s': 'assign', 'pl': {'l': acc}, 'rv': {'r': 'use', 'o': t['args'][1]}, 'at': at})
-    nx = _next_callee(insts, iter_ty)
-    H = B0 + nb            # header: call next
-    S = H + 1              # switch on the Option
-    SOME = H + 2           # bind the element, enter the closure body
-    NONE = H + 3           # exhausted
-    RET = H + 4            # closure returned
-    BRK = H + 5            # early exit
-    UNR = H + 6
-    dest = t['dest']
-    T = t['to']
-    ret_local = L0 + 0
+        def map_rv(rv):
+            rv = dict(rv)
+            k = rv['r']
+            if k == 'use':
+                o = rv['o']
+                if o['k'] in ('copy', 'move'):
+                    ef = is_env_field(o['pl'])
+                    if ef and not ef[1] and cap_place.get(ef[0], ('x',))[0] == 'ref':
+                        # copy of a captured reference: a fresh reference to the caller's variable
+                        cp = cap_place[ef[0]]
+                        return {'r': 'ref', 'mut': cp[2], 'pl': cp[1]}
+                rv['o'] = map_op(o)
+            elif k in ('ref', 'rawptr', 'discr'):
+                rv['pl'] = map_place(rv['pl'])
+            elif k == 'bin':
+                rv['a'] = map_op(rv['a'])
+                rv['b'] = map_op(rv['b'])
+            elif k in ('un', 'cast', 'repeat'):
+                rv['a'] = map_op(rv['a'])
+            elif k == 'agg':
+                rv['ops'] = [map_op(o) for o in rv['ops']]
+            elif 'pl' in rv or 'o' in rv or 'a' in rv:
+                raise Bail('rvalue %s' % k)
+            return rv
 
-    def blk(st, term):
-        return {'cleanup': False, 'st': st, 'term': term}
-    # header
-    if base_ref is not None:
-        hst = [{'s': 'assign', 'pl': {'l': l_ref}, 'rv': {'r': 'ref', 'mut': True, 'pl': {'l': base_ref, 'p': ['*']}}, 'at': at}]
-    else:
-        hst = [{'s': 'assign', 'pl': {'l': l_ref}, 'rv': {'r': 'ref', 'mut': True, 'pl': {'l': itl}}, 'at': at}]
-    header = blk(hst, {'t': 'call', 'callee': nx['callee'], 'cdef': nx['cdef'], 'leaf': True, 'crate': nx['crate'], 'closure_call': False,
-                       'self_adt': nx['self_adt'], 'closures': [], 'args': [{'k': 'move', 'pl': {'l': l_ref}}],
-                       'argtys': [body['locals'][l_ref]], 'dest': {'l': l_opt}, 'to': S, 'at': at})
-    sw = blk([{'s': 'assign', 'pl': {'l': l_d}, 'rv': {'r': 'discr', 'pl': {'l': l_opt}, 'ty': opt_ty}, 'at': at}],
-             {'t': 'switch', 'd': {'k': 'move', 'pl': {'l': l_d}}, 'dty': 'isize', 'arms': [[0, NONE], [1, SOME]], 'otherwise': UNR, 'at': at})
-    some_st = []
-    if acc is not None:
-        some_st.append({'s': 'assign', 'pl': {'l': L0 + 2}, 'rv': {'r': 'use', 'o': {'k': 'move', 'pl': {'l': acc}}}, 'at': at})
-    some_st.append({'s': 'assign', 'pl': {'l': L0 + nargs}, 'rv': {'r': 'use', 'o': {'k': 'move', 'pl': {'l': l_opt, 'p': [{'v': 1, 'n': 'Some'}, {'f': 0, 'n': '0'}]}}},
-                    'at': at})
-    some = blk(some_st, {'t': 'goto', 'to': B0 + 0})
-    unit = {'k': 'const', 'ty': '()', 'v': '()'}
-
-    def res(variant, vidx, o):
-        return {'r': 'agg', 'kind': 'adt', 'adt': 'core::result::Result', 'variant': variant, 'vidx': vidx, 'fields': ['0'], 'is_enum': True, 'ops': [o]}
-    ret_ty = cbody['locals'][0]
-    is_result = ret_ty.startswith('core::result::Result<') or ret_ty.startswith('std::result::Result<')
-    mv_ret = {'k': 'move', 'pl': {'l': ret_local}}
-    l_rd = newlocal('isize')
-    if kind == 'for_each':
-        none = blk([{'s': 'assign', 'pl': dest, 'rv': {'r': 'use', 'o': unit}, 'at': at}], {'t': 'goto', 'to': T})
-        ret = blk([], {'t': 'goto', 'to': H})
-        brk = blk([], {'t': 'unreachable'})
-    elif kind in ('all', 'any'):
-        stop_on = 0 if kind == 'all' else 1        # all: stop at the first false; any: at the first true
-        none = blk([{'s': 'assign', 'pl': dest, 'rv': {'r': 'use', 'o': {'k': 'const', 'ty': 'bool', 'v': 'true' if kind == 'all' else 'false'}}, 'at': at}],
-                   {'t': 'goto', 'to': T})
-        if stop_on == 0:
-            ret = blk([], {'t': 'switch', 'd': mv_ret, 'dty': 'bool', 'arms': [[0, BRK]], 'otherwise': H, 'at': at})
-        else:
-            ret = blk([], {'t': 'switch', 'd': mv_ret, 'dty': 'bool', 'arms': [[0, H]], 'otherwise': BRK, 'at': at})
-        brk = blk([{'s': 'assign', 'pl': dest, 'rv': {'r': 'use', 'o': {'k': 'const', 'ty': 'bool', 'v': 'false' if kind == 'all' else 'true'}}, 'at': at}],
-                  {'t': 'goto', 'to': T})
-    elif kind == 'try_for_each':
-        if not is_result:
-            raise Bail('try_for_each on a non-Result type')
-        none = blk([{'s': 'assign', 'pl': dest, 'rv': res('Ok', 0, unit), 'at': at}], {'t': 'goto', 'to': T})
-        ret = blk([{'s': 'assign', 'pl': {'l': l_rd}, 'rv': {'r': 'discr', 'pl': {'l': ret_local}, 'ty': ret_ty}, 'at': at}],
-                  {'t': 'switch', 'd': {'k': 'move', 'pl': {'l': l_rd}}, 'dty': 'isize', 'arms': [[0, H], [1, BRK]], 'otherwise': UNR, 'at': at})
-        brk = blk([{'s': 'assign', 'pl': dest, 'rv': {'r': 'use', 'o': mv_ret}, 'at': at}], {'t': 'goto', 'to': T})
-    elif kind == 'fold':
-        none = blk([{'s': 'assign', 'pl': dest, 'rv': {'r': 'use', 'o': {'k': 'move', 'pl': {'l': acc}}}, 'at': at}], {'t': 'goto', 'to': T})
-        ret = blk([{'s': 'assign', 'pl': {'l': acc}, 'rv': {'r': 'use', 'o': mv_ret}, 'at': at}], {'t': 'goto', 'to': H})
-        brk = blk([], {'t': 'unreachable'})
-    else:   # try_fold
-        if not is_result:
-            raise Bail('try_fold on a non-Result type')
-        none = blk([{'s': 'assign', 'pl': dest, 'rv': res('Ok', 0, {'k': 'move', 'pl': {'l': acc}}), 'at': at}], {'t': 'goto', 'to': T})
-        ret = blk([{'s': 'assign', 'pl': {'l': l_rd}, 'rv': {'r': 'discr', 'pl': {'l': ret_local}, 'ty': ret_ty}, 'at': at}],
-                  {'t': 'switch', 'd': {'k': 'move', 'pl': {'l': l_rd}}, 'dty': 'isize', 'arms': [[0, BRK + 2], [1, BRK]], 'otherwise': UNR, 'at': at})
-        brk = blk([{'s': 'assign', 'pl': dest, 'rv': {'r': 'use', 'o': mv_ret}, 'at': at}], {'t': 'goto', 'to': T})
-    unr = blk([], {'t': 'unreachable'})
-    extra = []
-    if kind == 'try_fold':
-        extra.append(blk([{'s': 'assign', 'pl': {'l': acc}, 'rv': {'r': 'use', 'o': {'k': 'move', 'pl': {'l': ret_local, 'p': [{'v': 0, 'n': 'Ok'}, {'f': 0, 'n': '0'}]}}}, 'at': at}],
-                         {'t': 'goto', 'to': H}))
-    # ---- the closure body, relocated
-    newblocks = []
-    for ob in cbody['blocks']:
-        st = []
-        for s in ob['st']:
-            if s['s'] == 'assign':
-                pl = map_place(s['pl'])
-                st.append({'s': 'assign', 'pl': pl, 'rv': map_rv(s['rv'], pl['l']), 'at': s.get('at')})
-            elif s['s'] == 'dead':
-                if s['l'] == 1:
-                    continue
-                st.append({'s': 'dead', 'l': L0 + s['l']})
-            else:
-                s2 = dict(s)
-                if 'pl' in s2:
-                    s2['pl'] = map_place(s2['pl'])
-                st.append(s2)
-        ot = ob['term']
-        tt = dict(ot)
-        k = ot['t']
-        if k == 'return':
-            tt = {'t': 'goto', 'to': RET}
-        elif k == 'goto':
-            tt['to'] = B0 + ot['to']
-        elif k == 'drop':
-            if ot['pl']['l'] == 1:
-                tt = {'t': 'goto', 'to': B0 + ot['to']}
-            else:
-                tt['pl'] = map_place(ot['pl'])
+        newblocks = []
+        for ob in cbody['blocks']:
+            st = []
+            for s in ob['st']:
+                if s['s'] == 'assign':
+                    st.append({'s': 'assign', 'pl': map_place(s['pl']), 'rv': map_rv(s['rv']), 'at': s.get('at')})
+                elif s['s'] == 'dead':
+                    if s['l'] == 1:
+                        continue
+                    st.append({'s': 'dead', 'l': L0 + s['l']})
+                else:
+                    s2 = dict(s)
+                    if 'pl' in s2:
+                        s2['pl'] = map_place(s2['pl'])
+                    st.append(s2)
+            ot = ob['term']
+            tt = dict(ot)
+            k = ot['t']
+            if k == 'return':
+                tt = {'t': 'goto', 'to': ret_to}
+            elif k == 'goto':
                 tt['to'] = B0 + ot['to']
-        elif k == 'assert':
-            tt['c'] = map_op(ot['c'])
-            tt['to'] = B0 + ot['to']
-        elif k == 'switch':
-            tt['d'] = map_op(ot['d'])
-            tt['arms'] = [[v, B0 + b] for v, b in ot['arms']]
-            tt['otherwise'] = B0 + ot['otherwise']
-        elif k == 'call':
-            tt['args'] = [map_op(a) for a in ot['args']]
-            tt['dest'] = map_place(ot['dest'])
-            tt['to'] = B0 + ot['to'] if ot['to'] >= 0 else -1
-        elif k in ('unreachable', 'resume', 'abort'):
-            pass
+            elif k == 'drop':
+                if ot['pl']['l'] == 1:
+                    tt = {'t': 'goto', 'to': B0 + ot['to']}
+                else:
+                    tt['pl'] = map_place(ot['pl'])
+                    tt['to'] = B0 + ot['to']
+            elif k == 'assert':
+                tt['c'] = map_op(ot['c'])
+                tt['to'] = B0 + ot['to']
+            elif k == 'switch':
+                tt['d'] = map_op(ot['d'])
+                tt['arms'] = [[v, B0 + b] for v, b in ot['arms']]
+                tt['otherwise'] = B0 + ot['otherwise']
+            elif k == 'call':
+                tt['args'] = [map_op(a) for a in ot['args']]
+                tt['dest'] = map_place(ot['dest'])
+                tt['to'] = B0 + ot['to'] if ot['to'] >= 0 else -1
+            elif k in ('unreachable', 'resume', 'abort'):
+                pass
+            else:
+                raise Bail('terminator %s' % k)
+            newblocks.append({'cleanup': ob['cleanup'], 'st': st, 'term': tt})
+        body['blocks'].extend(newblocks)
+        self.new.extend(newblocks)
+        # debug names of the closure's own locals (never override the caller's)
+        for n, pl in cbody.get('names', {}).items():
+            if not pl.get('p') and pl['l'] != 1 and n not in body['names']:
+                body['names'][n] = {'l': L0 + pl['l']}
+        body.setdefault('inlined_iter_closures', []).append(ckey)
+        return B0, L0, cbody
+
+    # ------------------------------------------------------------------------------------------------------------------
+    def closure_of(self, t):
+        ck = [k for k in t.get('closures', []) if k in self.insts]
+        if len(ck) != 1:
+            raise Bail('closure body not available')
+        cl = op_local(t['args'][-1])
+        if cl is None:
+            raise Bail('closure operand is not a local')
+        return ck[0], cl
+
+    def rewrite(self, bi):
+        insts, body = self.insts, self.body
+        blocks = body['blocks']
+        t = blocks[bi]['term']
+        m = CONSUMER.match(t['callee'])
+        kind = m.group(2)
+        iter_ty = m.group(1)
+        if t['to'] < 0:
+            raise Bail('diverging consumer')
+        nargs = {'for_each': 2, 'try_for_each': 2, 'all': 2, 'any': 2, 'fold': 3, 'try_fold': 3}[kind]
+        if len(t['args']) != nargs:
+            raise Bail('arity')
+        at = t.get('at')
+        ckey, cl_local = self.closure_of(t)
+        # ---- the iterator pipeline feeding the consumer
+        it_ty = t['argtys'][0] if t.get('argtys') else ''
+        a0 = op_local(t['args'][0])
+        if a0 is None:
+            raise Bail('iterator operand is not a local')
+        if it_ty.startswith('&mut '):
+            rv = _single_assign(body, a0)
+            if rv is None or rv['r'] != 'ref' or rv['pl'].get('p'):
+                raise Bail('iterator reference')
+            it = rv['pl']['l']
+            it_val_ty = it_ty[5:]
         else:
-            raise Bail('terminator %s' % k)
-        newblocks.append({'cleanup': ob['cleanup'], 'st': st, 'term': tt})
-    blocks.extend(newblocks)
-    blocks.extend([header, sw, some, none, ret, brk, unr] + extra)
-    # the original call block now runs the pre-loop statements and enters the loop
-    blocks[bi]['st'] = blocks[bi]['st'] + pre
-    blocks[bi]['term'] = {'t': 'goto', 'to': H}
-    # debug names of the closure's own locals (never override the caller's)
-    for n, pl in cbody.get('names', {}).items():
-        if not pl.get('p') and pl['l'] != 1 and n not in body['names']:
-            body['names'][n] = {'l': L0 + pl['l']}
-    body.setdefault('inlined_iter_closures', []).append(ck[0])
+            it = a0
+            it_val_ty = it_ty
+        stages = []
+        neutralise = []
+        while True:
+            d = _defs_of(body, it)
+            if len(d) != 1 or d[0][0] != 'call':
+                break
+            cb = d[0][1]
+            ct = blocks[cb]['term']
+            am = ADAPTOR.match(ct['callee'])
+            if not am or not ct.get('leaf') or len(ct['args']) != 2 or ct['to'] < 0:
+                break
+            # the adaptor value feeds only the next stage: the consumer's `&mut it` borrow / by-value argument, or the outer adaptor's argument
+            expected = (1 if it_ty.startswith('&mut ') else 0) if not stages else 1
+            if _uses(body, it, skip_blocks=(bi,)) != expected:
+                raise Bail('adaptor value has other uses')
+            sck, scl = self.closure_of(ct)
+            inner = op_local(ct['args'][0])
+            if inner is None:
+                raise Bail('adaptor operand is not a local')
+            stages.insert(0, (am.group(2), sck, scl))
+            neutralise.append(cb)
+            iter_ty = am.group(1)
+            it = inner
+            it_val_ty = ct['argtys'][0] if ct.get('argtys') else iter_ty
+        # ---- loop skeleton
+        l_ref = self.newlocal('&mut ' + it_val_ty)
+        nx = _next_callee(insts, iter_ty)
+        # consumer first (its parameter types give the element type when there is no stage)
+        cB0, cL0, cbody = self.splice(ckey, cl_local, 'RET', at)
+        staged = []
+        for i, (sk, sck, scl) in enumerate(stages):
+            sB0, sL0, sbody = self.splice(sck, scl, 'R%d' % i, at)
+            staged.append((sk, sB0, sL0, sbody))
+        if staged:
+            first_param_ty = staged[0][3]['locals'][2]
+            elem0_ty = first_param_ty[1:] if staged[0][0] == 'filter' and first_param_ty.startswith('&') else first_param_ty
+        else:
+            elem0_ty = cbody['locals'][nargs]
+        opt_ty = 'core::option::Option<%s>' % elem0_ty
+        l_opt = self.newlocal(opt_ty)
+        l_d = self.newlocal('isize')
+        x = self.newlocal(elem0_ty)
+        acc = None
+        if kind in ('fold', 'try_fold'):
+            acc = self.newlocal(cbody['locals'][2])
+            self.pre.append({'s': 'assign', 'pl': {'l': acc}, 'rv': {'r': 'use', 'o': t['args'][1]}, 'at': at})
+        dest = t['dest']
+        T = t['to']
+        A = lambda pl, rv: {'s': 'assign', 'pl': pl, 'rv': rv, 'at': at}
+        use = lambda o: {'r': 'use', 'o': o}
+        mv = lambda l, p=None: {'k': 'move', 'pl': ({'l': l, 'p': p} if p else {'l': l})}
+        self.add_block('H', [A({'l': l_ref}, {'r': 'ref', 'mut': True, 'pl': {'l': it}})],
+                       {'t': 'call', 'callee': nx['callee'], 'cdef': nx['cdef'], 'leaf': True, 'crate': nx['crate'], 'closure_call': False,
+                        'self_adt': nx['self_adt'], 'closures': [], 'args': [mv(l_ref)], 'argtys': [body['locals'][l_ref]],
+                        'dest': {'l': l_opt}, 'to': 'S', 'at': at})
+        self.add_block('S', [A({'l': l_d}, {'r': 'discr', 'pl': {'l': l_opt}, 'ty': opt_ty})],
+                       {'t': 'switch', 'd': mv(l_d), 'dty': 'isize', 'arms': [[0, 'NONE'], [1, 'E0']], 'otherwise': 'UNR', 'at': at})
+        nxt = 'PRE0' if staged else 'CONS'
+        self.add_block('E0', [A({'l': x}, use(mv(l_opt, [{'v': 1, 'n': 'Some'}, {'f': 0, 'n': '0'}])))], {'t': 'goto', 'to': nxt})
+        for i, (sk, sB0, sL0, sbody) in enumerate(staged):
+            nxt = 'PRE%d' % (i + 1) if i + 1 < len(staged) else 'CONS'
+            ret = sL0 + 0
+            ret_ty = sbody['locals'][0]
+            if sk == 'map':
+                self.add_block('PRE%d' % i, [A({'l': sL0 + 2}, use(mv(x)))], {'t': 'goto', 'to': sB0})
+                x2 = self.newlocal(ret_ty)
+                self.add_block('R%d' % i, [A({'l': x2}, use(mv(ret)))], {'t': 'goto', 'to': nxt})
+                x = x2
+            elif sk == 'filter':
+                self.add_block('PRE%d' % i, [A({'l': sL0 + 2}, {'r': 'ref', 'mut': False, 'pl': {'l': x}})], {'t': 'goto', 'to': sB0})
+                self.add_block('R%d' % i, [], {'t': 'switch', 'd': mv(ret), 'dty': 'bool', 'arms': [[0, 'H']], 'otherwise': nxt, 'at': at})
+            else:   # filter_map
+                if not ret_ty.startswith('core::option::Option<'):
+                    raise Bail('filter_map closure type')
+                self.add_block('PRE%d' % i, [A({'l': sL0 + 2}, use(mv(x)))], {'t': 'goto', 'to': sB0})
+                d_i = self.newlocal('isize')
+                self.add_block('R%d' % i, [A({'l': d_i}, {'r': 'discr', 'pl': {'l': ret}, 'ty': ret_ty})],
+                               {'t': 'switch', 'd': mv(d_i), 'dty': 'isize', 'arms': [[0, 'H'], [1, 'Y%d' % i]], 'otherwise': 'UNR', 'at': at})
+                x2 = self.newlocal(ret_ty[len('core::option::Option<'):-1])
+                self.add_block('Y%d' % i, [A({'l': x2}, use(mv(ret, [{'v': 1, 'n': 'Some'}, {'f': 0, 'n': '0'}])))], {'t': 'goto', 'to': nxt})
+                x = x2
+        cons_st = []
+        if acc is not None:
+            cons_st.append(A({'l': cL0 + 2}, use(mv(acc))))
+        cons_st.append(A({'l': cL0 + nargs}, use(mv(x))))
+        self.add_block('CONS', cons_st, {'t': 'goto', 'to': cB0})
+        unit = {'k': 'const', 'ty': '()', 'v': '()'}
 
-
-def cbody_capture_ty(cbody, i, body, o):
-    l = op_local(o)
-    if l is not None:
-        return body['locals'][l]
-    return o.get('ty', '?')
+        def res(variant, vidx, o):
+            return {'r': 'agg', 'kind': 'adt', 'adt': 'core::result::Result', 'variant': variant, 'vidx': vidx, 'fields': ['0'], 'is_enum': True, 'ops': [o]}
+        ret_local = cL0 + 0
+        ret_ty = cbody['locals'][0]
+        is_result = ret_ty.startswith('core::result::Result<') or ret_ty.startswith('std::result::Result<')
+        cbool = lambda v: {'k': 'const', 'ty': 'bool', 'v': 'true' if v else 'false'}
+        if kind == 'for_each':
+            self.add_block('NONE', [A(dest, use(unit))], {'t': 'goto', 'to': T})
+            self.add_block('RET', [], {'t': 'goto', 'to': 'H'})
+        elif kind in ('all', 'any'):
+            self.add_block('NONE', [A(dest, use(cbool(kind == 'all')))], {'t': 'goto', 'to': T})
+            if kind == 'all':    # stop at the first false
+                self.add_block('RET', [], {'t': 'switch', 'd': mv(ret_local), 'dty': 'bool', 'arms': [[0, 'BRK']], 'otherwise': 'H', 'at': at})
+            else:                # stop at the first true
+                self.add_block('RET', [], {'t': 'switch', 'd': mv(ret_local), 'dty': 'bool', 'arms': [[0, 'H']], 'otherwise': 'BRK', 'at': at})
+            self.add_block('BRK', [A(dest, use(cbool(kind != 'all')))], {'t': 'goto', 'to': T})
+        elif kind == 'try_for_each':
+            if not is_result:
+                raise Bail('try_for_each on a non-Result type')
+            l_rd = self.newlocal('isize')
+            self.add_block('NONE', [A(dest, res('Ok', 0, unit))], {'t': 'goto', 'to': T})
+            self.add_block('RET', [A({'l': l_rd}, {'r': 'discr', 'pl': {'l': ret_local}, 'ty': ret_ty})],
+                           {'t': 'switch', 'd': mv(l_rd), 'dty': 'isize', 'arms': [[0, 'H'], [1, 'BRK']], 'otherwise': 'UNR', 'at': at})
+            self.add_block('BRK', [A(dest, use(mv(ret_local)))], {'t': 'goto', 'to': T})
+        elif kind == 'fold':
+            self.add_block('NONE', [A(dest, use(mv(acc)))], {'t': 'goto', 'to': T})
+            self.add_block('RET', [A({'l': acc}, use(mv(ret_local)))], {'t': 'goto', 'to': 'H'})
+        else:   # try_fold
+            if not is_result:
+                raise Bail('try_fold on a non-Result type')
+            l_rd = self.newlocal('isize')
+            self.add_block('NONE', [A(dest, res('Ok', 0, mv(acc)))], {'t': 'goto', 'to': T})
+            self.add_block('RET', [A({'l': l_rd}, {'r': 'discr', 'pl': {'l': ret_local}, 'ty': ret_ty})],
+                           {'t': 'switch', 'd': mv(l_rd), 'dty': 'isize', 'arms': [[0, 'CONT'], [1, 'BRK']], 'otherwise': 'UNR', 'at': at})
+            self.add_block('CONT', [A({'l': acc}, use(mv(ret_local, [{'v': 0, 'n': 'Ok'}, {'f': 0, 'n': '0'}])))], {'t': 'goto', 'to': 'H'})
+            self.add_block('BRK', [A(dest, use(mv(ret_local)))], {'t': 'goto', 'to': T})
+        self.add_block('UNR', [], {'t': 'unreachable'})
+        self.resolve()
+        # the adaptor constructors no longer run; the consumer call block runs the pre-loop statements and enters the loop
+        for cb in neutralise:
+            blocks[cb]['term'] = {'t': 'goto', 'to': blocks[cb]['term']['to']}
+        blocks[bi]['st'] = blocks[bi]['st'] + self.pre
+        blocks[bi]['term'] = {'t': 'goto', 'to': self.names['H']}
 
 
 def inline_body(insts, body, done):
@@ -366,19 +493,20 @@ def inline_body(insts, body, done):
                 continue
             if t.get('_noinline'):
                 continue
-            snap = (len(body['locals']), len(body['blocks']), len(body['promoted']), copy.deepcopy(body['blocks'][bi]), dict(body['names']))
+            snap = (len(body['locals']), len(body['blocks']), len(body['promoted']), copy.deepcopy(body['blocks']), dict(body['names']),
+                    list(body.get('inlined_iter_closures', [])))
             try:
-                _rewrite_call(insts, body, bi, done)
+                Rewriter(insts, body, done).rewrite(bi)
                 changed = True
                 break
-            except Bail as e:
+            except (Bail, KeyError, IndexError) as e:
                 # undo partial edits, leave the call to the generic leaf-closure model
                 del body['locals'][snap[0]:]
-                del body['blocks'][snap[1]:]
+                body['blocks'][:] = snap[3]
                 del body['promoted'][snap[2]:]
-                body['blocks'][bi] = snap[3]
                 body['names'] = snap[4]
-                body['blocks'][bi]['term']['_noinline'] = str(e)
+                body['inlined_iter_closures'] = snap[5]
+                body['blocks'][bi]['term']['_noinline'] = '%s: %s' % (type(e).__name__, e)
 
 
 def inline_all(insts):
